@@ -483,11 +483,22 @@ def param_sources(ctx, body, k):
 
 
 def nested_closures(ctx, body, depth=3):
+    """closures written in `body` or created there (a closure of an inlined helper keeps the helper's name), recursively"""
     out = []
-    for c in ctx.facts.closures_of(body):
+    mine = list(ctx.facts.closures_of(body))
+    try:
+        for cid, c in ctx.model.creation.items():
+            cb = ctx.facts.bodies.get(cid)
+            if c[0].id == body.id and cb is not None and cb not in mine:
+                mine.append(cb)
+    except AttributeError:
+        pass
+    for c in mine:
+        if c in out:
+            continue
         out.append(c)
         if depth > 0:
-            out.extend(nested_closures(ctx, c, depth - 1))
+            out.extend(x for x in nested_closures(ctx, c, depth - 1) if x not in out)
     return out
 
 
